@@ -318,6 +318,38 @@ def special_cases(what):
             if pr:
                 out.append((desc, pr))
     if what != "schema":
+        # the command-line dump emits exactly the serialisation of each requested package (one file for all, one file per package; minimal and full)
+        import io
+        from _griffe import cli as _cli
+        with tempfile.TemporaryDirectory() as tmp:
+            for nm in ("c8cli_one", "c8cli_two"):
+                (Path(tmp) / f"{nm}.py").write_text(module_source(3 if nm.endswith("one") else 8))
+            for full in (False, True):
+                pr = []
+                try:
+                    ld = GriffeLoader(search_paths=[tmp], docstring_parser=None, store_source=False)
+                    mods = {nm: ld.load(nm) for nm in ("c8cli_one", "c8cli_two")}
+                    want = {nm: json.loads(m.as_json(full=full)) for nm, m in mods.items()}
+                    buf = io.StringIO()
+                    rc = _cli.dump(["c8cli_one", "c8cli_two"], output=buf, full=full, search_paths=[tmp])
+                    got = json.loads(buf.getvalue())
+                    if rc != 0:
+                        pr.append(f"griffe dump (full={full}) returned {rc}")
+                    if got != want:
+                        pr.append(f"griffe dump (full={full}) differs from the packages' own serialisation (keys {sorted(got)} vs {sorted(want)})")
+                    per = str(Path(tmp) / ("out_{package}_" + str(full) + ".json"))
+                    rc = _cli.dump(["c8cli_one", "c8cli_two"], output=per, full=full, search_paths=[tmp])
+                    for nm in want:
+                        one = json.loads(Path(per.format(package=nm)).read_text())
+                        if one != want[nm]:
+                            pr.append(f"griffe dump -o per-package file of {nm} (full={full}) differs from the package's own serialisation")
+                except BaseException as e:  # noqa: BLE001
+                    pr.append(f"griffe dump (full={full}) raised {type(e).__name__}: {str(e)[:80]}")
+                finally:
+                    for nm in ("c8cli_one", "c8cli_two"):
+                        sys.modules.pop(nm, None)
+                if pr:
+                    out.append((f"command-line dump (full={full})", pr))
         # objects built directly (what extensions and the inspector produce): empty-string values are values, not absences
         from _griffe.models import Attribute, Function, Parameter, Parameters
         from _griffe.enumerations import ParameterKind
